@@ -161,6 +161,51 @@ def compact_obligations(obligations):
     return out
 
 
+def shrink_evidence(ev, limit=2500000):
+    """an evidence file has to stay well below 5 MB (larger files are cut off by the reader and count as no evidence).  Nothing is dropped silently:
+    the per-obligation list with times is in evidence/<id>.obligations.jsonl.gz; every reduction is named in coverage.reduced"""
+    cov = ev['coverage']
+    txt = json.dumps(ev, indent=1)
+    if len(txt) <= limit:
+        return txt
+    cov['reduced'] = []
+    can = cov.get('canaries') or {}
+    cov['canaries'] = {'total': len(can), 'failed_as_required': sum(1 for v in can.values() if v == 'FAILURE'),
+                       'others': {k: v for k, v in can.items() if v != 'FAILURE'}}
+    cov['reduced'].append('canaries: counts instead of one entry per function')
+    for e in cov['obligation_list'].values():
+        if len(e.get('clauses', [])) > 2:
+            e['clauses'] = e['clauses'][:1] + ['... %d more' % (len(e['clauses']) - 1)]
+    cov['reduced'].append('obligation_list: first clause name per function, the others counted')
+    txt = json.dumps(ev, indent=None, separators=(',', ':'))
+    if len(txt) <= limit:
+        return txt
+    # tables: one row per function instead of one object
+    fns = cov['functions_under_contract']
+    cols = ['real', 'build', 'mode', 'kind', 'backend', 'seconds', 'solver_s', 'status']
+    cov['functions_under_contract'] = {'columns': cols, 'rows': {k: [str(v.get(c))[:90] if c == 'real' else v.get(c) for c in cols] for k, v in fns.items()}}
+    ol = cov['obligation_list']
+    ocols = ['discharged', 'refuted', 'safety_obligations', 'first_clause', 'bounded', 'refuted_names']
+    cov['obligation_list'] = {'columns': ocols, 'rows': {k: [v.get('discharged'), v.get('refuted'), v.get('safety_obligations'), (v.get('clauses') or [''])[0],
+                                                               v.get('bounded'), v.get('refuted_names')] for k, v in ol.items()}}
+    cov['reduced'].append('functions_under_contract and obligation_list: one row per function (see columns)')
+    txt = json.dumps(ev, indent=None, separators=(',', ':'))
+    if len(txt) > limit:
+        rows = cov['functions_under_contract']['rows']
+        by = {}
+        for k, r in rows.items():
+            b = by.setdefault(r[1], {'functions': 0, 'seconds': 0.0, 'backends': {}, 'not_done': []})
+            b['functions'] += 1
+            b['seconds'] += r[5] or 0
+            b['backends'][str(r[4])] = b['backends'].get(str(r[4]), 0) + 1
+            if r[7] != 'done':
+                b['not_done'].append(k)
+        cov['functions_under_contract'] = {'count': len(rows), 'by_build': by, 'note': 'one row per function: see obligation_list'}
+        cov['reduced'].append('functions_under_contract: aggregated per build')
+        txt = json.dumps(ev, indent=None, separators=(',', ':'))
+    return txt
+
+
 def compact_bounded(bnd):
     by = {}
     for o in bnd:
@@ -669,7 +714,7 @@ class Prop:
             ev['level'] = 'other'
             ev['coverage']['explanation'] = 'no obligation was discharged in this run: ' + '; '.join(list(undecided)[:3])
         evp = os.path.join(VERIF, 'evidence', self.id + '.json') if not getattr(self, '_partial', False) else os.path.join(self._wd, 'evidence_partial.json')
-        json.dump(ev, open(evp, 'w'), indent=1)
+        open(evp, 'w').write(shrink_evidence(ev))
 
 
 def _parse_ll(path):
